@@ -170,6 +170,7 @@ def run(ctx):
     if ctx.thorough:
         menu += [("k2b", [L], 1), ("k3a", [L], 1), ("k2mat", [L], 0), ("k2eps", [L], 0)]
     ps = ml.e2_plans(ctx, menu, MONS, conform=False)
+    ps += ml.e2_plans(ctx, [("long6k", [3], 0)], MONS, conform=False, inits=drivers.long_inits)
     # the loop's control skeleton (scripted relabel outputs, see C09): final states whose labels differ from the
     # labels last fitted, incl. an emptied or singleton cluster, for every label sequence up to length 3
     from checks.c09 import work_skeleton, SK_ALPHA
